@@ -511,3 +511,32 @@ Theorem Check_print dbg v gs : wf_version v = true -> sgroups_ok gs = true ->
 Proof.
   intros Hv Hg. apply Check_valid; [now apply Parse_print|now apply range_groups_print|now apply strip_wf].
 Qed.
+
+(** the elements of spec are alternatives: on canonical strings, appending spec lists is disjunction *)
+Lemma range_holds_app a b v : range_holds (a ++ b) v = range_holds a v || range_holds b v.
+Proof. unfold range_holds. apply existsb_app. Qed.
+
+Lemma strip_app a b : strip (a ++ b) = strip a ++ strip b.
+Proof. unfold strip. apply map_app. Qed.
+
+Lemma sgroups_ok_app a b : sgroups_ok a = true -> sgroups_ok b = true -> sgroups_ok (a ++ b) = true.
+Proof.
+  unfold sgroups_ok. intros Ha Hb. apply andb_true_iff in Ha as [Hna Ha]. apply andb_true_iff in Hb as [_ Hb].
+  apply andb_true_iff. split; [destruct a; [discriminate|reflexivity]|]. rewrite forallb_app. now rewrite Ha, Hb.
+Qed.
+
+Theorem IsCompatible_alternatives v a b : wf_version v = true -> sgroups_ok a = true -> sgroups_ok b = true ->
+  IsCompatible (version_string v) (map group_string a ++ map group_string b) =
+  match IsCompatible (version_string v) (map group_string a), IsCompatible (version_string v) (map group_string b) with
+  | Some x, Some y => Some (x || y)
+  | _, _ => None
+  end.
+Proof.
+  intros Hv Ha Hb. rewrite <- map_app.
+  rewrite (IsCompatible_print v (a ++ b) Hv (sgroups_ok_app a b Ha Hb)), (IsCompatible_print v a Hv Ha), (IsCompatible_print v b Hv Hb).
+  now rewrite strip_app, range_holds_app.
+Qed.
+
+Theorem Check_agrees v gs dbg : wf_version v = true -> sgroups_ok gs = true ->
+  Check dbg (version_string v) (map group_string gs) = IsCompatible (version_string v) (map group_string gs).
+Proof. intros Hv Hg. now rewrite Check_print, IsCompatible_print. Qed.
